@@ -40,6 +40,7 @@ partial def parseNode (j : Json) : Except String PNode := do
   let kind ← match k with
     | "internal" => pure Kind.internal
     | "intro" => pure Kind.intro
+    | "introopt" => pure Kind.introOpt
     | "inline" => do
         let imps ← parseReqs (← j.getObjVal? "imports")
         let hd ← j.getObjValAs? Bool "hd"
@@ -47,7 +48,7 @@ partial def parseNode (j : Json) : Except String PNode := do
     | "op" => do
         let o ← j.getObjValAs? String "o"
         pure (Kind.op d (opId d o) v)
-    | "func" => pure (Kind.func d v)
+    | "func" => pure (Kind.func d v ((j.getObjValAs? String "nm").toOption.getD ""))
     | _ => throw s!"bad kind {k}"
   return .mk kind np c subs id
 partial def parseGraph (j : Json) : Except String PGraph := do
@@ -109,7 +110,11 @@ def handle (req : Json) : Json :=
           ("imports", reqsJson m.imports),
           ("main", Json.arr (m.main.map entryJson).toArray),
           ("funcs", Json.arr (m.funcs.map (fun (f : List Req × List Entry) =>
-              Json.mkObj [("imports", reqsJson f.1), ("entries", Json.arr (f.2.map entryJson).toArray)])).toArray)]
+              Json.mkObj [("imports", reqsJson f.1), ("entries", Json.arr (f.2.map entryJson).toArray)])).toArray),
+          ("funcKeys", Json.arr ((funcKeysOfGraph g).map (fun (k : FKey) => Json.arr #[Json.str k.1, Json.str k.2])).toArray),
+          ("merged", match emittedFunctions genFacts extra g with
+                     | none => Json.null
+                     | some r => Json.arr (r.map (fun (p : FKey × FuncDef) => Json.arr #[Json.str p.1.1, Json.str p.1.2])).toArray)]
     | _ => throw s!"unknown request {t}") with
   | .ok j => j
   | .error e => Json.mkObj [("error", e)]
